@@ -1675,14 +1675,23 @@ def r_beam(m, rep, R):
         lhs, rhs = rhs, lhs
     bests = [M(('mcall', q, 'top', ()), 'first')] + ([IDX(V(m.BT), tv)] if m.BT else [])
     nf = False
+    prob_form = False
     for b in bests:
         on_forms = [(('call', 'exp', (score,)), ('bin', '*', ('call', 'exp', (b,)), beta)),
                     (score, ADD(b, ('call', 'log', (beta,))))]
-        for l_, r_on in on_forms:
+        for i_form, (l_, r_on) in enumerate(on_forms):
             for low in (('call', 'lowest', ()),):
                 want_r = ('cond', use_beta, r_on, low)
                 if canon(lhs) == canon(l_) and canon(rhs) == canon(want_r):
                     nf = True
+                    prob_form = prob_form or i_form == 0
+    if nf and prob_form:
+        # in the probability domain both sides underflow to 0 for very low scores (rows flattened by the category
+        # dictionary, a best tag below about -92): only the strict comparison still rejects 0 against 0
+        rep.check(op in ('>', '<'), R, _w(ifnode.line), 'beam:threshold-strict',
+                  'probabilities are compared strictly, so a candidate whose probability underflows to 0 is never kept against a threshold that underflowed to 0',
+                  'keep-test %s admits equality: when exp(best) * beta underflows to 0 every candidate with probability 0 (e.g. one flattened to -1e33 by the '
+                  'category dictionary) passes 0 >= 0 although the filter is on' % canon(keep_r))
     rep.check(nf, R, _w(ifnode.line), 'beam:threshold-form',
               'a candidate is kept iff p(tag) > beta * p(best tag of the word) when the filter is on, always when it is off',
               'keep-test %s is not one of the accepted forms exp(s) > (use_beta ? exp(best)*beta : lowest) / s > (use_beta ? best+log(beta) : lowest)' % canon(keep_r))
